@@ -1,4 +1,5 @@
 import BarterModel.Lemmas.ExecMap
+import BarterModel.Lemmas.Review2_C04
 /-!
 # C04 — Engine indices and exchange names translate both ways without mix-ups
 
@@ -509,5 +510,323 @@ example : ∃ t, buildExecution exampleColl3 [30, 20] = .ok (some t) ∧
   ⟨_, rfl, by decide, by decide, by decide, by decide, by decide, by decide, by decide⟩
 example : buildExecution exampleColl3 [20, 20] = .error .duplicate ∧
     buildExecution exampleColl3 [40] = .error .index := ⟨rfl, rfl⟩
+
+/-! ## Review 2 (audit/report_C01-C05.md, section C04): the same clauses under their minimal
+hypotheses, the exact behaviour at the point `WF` excludes, and a witness of that point
+
+`WF c ex` = `Indexed c` ∧ distinct exchange ids ∧ *per-exchange injective `name_exchange`*. The last
+part is a documented precondition that `IndexedInstrumentsBuilder::build` does not enforce (it
+dedups by whole-struct equality, barter-instrument/src/index/builder.rs:66-69). The theorems below
+show which clauses do not depend on it at all (everything outbound, and the soundness half of
+everything inbound), characterise what the code does without it (`*_name_last_index_wins`), and
+exhibit the deviation (`name_collision_misroutes_witness`). The theorems above are kept unchanged;
+each is implied by its `_wfx` / `_indexed` / `_nohyp` twin here. -/
+
+/-- Exchange keys under `WFX` alone (keys are positions, exchange ids distinct; NO condition on
+asset / instrument names): only the link's own exchange index / id translate, to each other. Same
+conclusion as `exchange_translation`, which assumed `WF`. Review C04-M2. -/
+theorem exchange_translation_wfx (hW : WFX c) (hm : genMap c ex = .ok m) (x id : Nat) :
+    (m.findExchangeId x = .ok id ↔ id = ex ∧ ∃ k, c.exchanges[x]? = some k ∧ k.id = ex) ∧
+    (m.findExchangeIndex id = .ok x ↔ id = ex ∧ ∃ k, c.exchanges[x]? = some k ∧ k.id = ex) := by
+  have A := agrees_of_indexed hW.1 hm
+  have hW' : WF ⟨c.exchanges, [], []⟩ ex :=
+    ⟨⟨hW.1.1, rfl, rfl⟩, hW.2, List.Pairwise.nil, List.Pairwise.nil⟩
+  constructor
+  · rw [findExchangeId_eq A hW.2, ← specExchangeId_some]
+    cases specExchangeId c ex x <;> simp
+  · rw [findExchangeIndex_eq A]
+    have := specExchangeIndex_some hW' id x
+    rw [show specExchangeIndex c ex id = specExchangeIndex ⟨c.exchanges, [], []⟩ ex id from rfl, ← this]
+    cases specExchangeIndex ⟨c.exchanges, [], []⟩ ex id <;> simp
+
+/-- Soundness of the exchange id → index direction under `Indexed` alone (exchange ids need not even
+be distinct): whatever id translates is the link's own id `ex`, and the index it yields holds an
+exchange with id `ex`. Review C04-M2. -/
+theorem exchange_index_sound_indexed (hI : Indexed c) (hm : genMap c ex = .ok m) {id x : Nat}
+    (h : m.findExchangeIndex id = .ok x) :
+    id = ex ∧ ∃ k, c.exchanges[x]? = some k ∧ k.id = ex := by
+  have A := agrees_of_indexed hI hm
+  unfold EMap.findExchangeIndex at h
+  split at h
+  · rename_i e
+    injection h with h
+    rw [← h]
+    exact ⟨by rw [← e, A.id_eq], exchange_at_key A⟩
+  · cases h
+
+/-- (4) `request_addressed` under `WFX` alone — no name injectivity: whatever `order_request` hands
+to the client is addressed to the exchange id `ex`, which is the exchange at the request's exchange
+index, and to the `name_exchange` of exactly the requested instrument, which belongs to `ex`; client
+order id and request state are untouched. So the outbound clause holds also for collections in which
+two instruments of `ex` share a name. Strengthens `request_addressed` (which assumed `WF`).
+Review C04-M2. -/
+theorem request_addressed_wfx (hW : WFX c) (hm : genMap c ex = .ok m) {o r : OEvent Nat Nat}
+    (h : orderRequest m o = .ok r) :
+    r.key.exchange = ex ∧
+    (∃ kx, c.exchanges[o.key.exchange]? = some kx ∧ kx.id = ex) ∧
+    (∃ k, c.instruments[o.key.instrument]? = some k ∧ k.exchange = ex ∧
+      k.nameExchange = r.key.instrument) ∧
+    r.key.cid = o.key.cid ∧ r.state = o.state := by
+  unfold orderRequest at h
+  split at h
+  · cases h
+  · rename_i id hid
+    split at h
+    · cases h
+    · rename_i name hname
+      injection h with h; subst h
+      have hx := ((exchange_translation_wfx hW hm o.key.exchange id).1.mp hid)
+      exact ⟨hx.1, hx.2, instrument_name_sound hW.1 hm hname, rfl, rfl⟩
+
+/-- (3) `name_index_name`, instruments, under `Indexed` alone (keys are positions; NO name
+injectivity, exchange ids need not be distinct): a name that translates yields the index of an
+instrument of `ex` carrying exactly this name, and that index translates back to the name. Both
+conjuncts of `instrument_name_index_name` (which assumed `WF`). Consequence: also at the excluded
+point an inbound name is never attributed to an instrument of another exchange or of another name —
+what can go wrong there is only *which* of the equally named instruments of `ex` is chosen
+(`instrument_name_last_index_wins`). Review C04-M2. -/
+theorem instrument_name_index_name_indexed (hI : Indexed c) (hm : genMap c ex = .ok m) {n i : Nat}
+    (h : m.findInstrumentIndex n = .ok i) :
+    (∃ k, c.instruments[i]? = some k ∧ k.exchange = ex ∧ k.nameExchange = n) ∧
+    m.findInstrumentName i = .ok n := by
+  rw [findInstrumentIndex_ok_iff, genMap_instrumentNames hm] at h
+  have hk := reverse_hit_indexed KInstrument.key KInstrument.exchange KInstrument.nameExchange
+    hI.2.2 ex n i h
+  refine ⟨hk, ?_⟩
+  rw [findInstrumentName_eq (agrees_of_indexed hI hm), (specInstrumentName_some c ex i n).mpr hk]
+
+/-- (3) `name_index_name`, assets, under `Indexed` alone: the asset twin holds as well.
+Review C04-M2. -/
+theorem asset_name_index_name_indexed (hI : Indexed c) (hm : genMap c ex = .ok m) {n a : Nat}
+    (h : m.findAssetIndex n = .ok a) :
+    (∃ k, c.assets[a]? = some k ∧ k.exchange = ex ∧ k.nameExchange = n) ∧
+    m.findAssetName a = .ok n := by
+  rw [findAssetIndex_ok_iff, genMap_assetNames hm] at h
+  have hk := reverse_hit_indexed KAsset.key KAsset.exchange KAsset.nameExchange hI.2.1 ex n a h
+  refine ⟨hk, ?_⟩
+  rw [findAssetName_eq (agrees_of_indexed hI hm), (specAssetName_some c ex a n).mpr hk]
+
+/-- Name → index soundness with NO hypothesis on the collection at all (keys need not be positions):
+the index a name translates to is the *key* of an instrument entry of `ex` carrying that name.
+Review C04-M2. -/
+theorem instrument_name_sound_nohyp (hm : genMap c ex = .ok m) {n i : Nat}
+    (h : m.findInstrumentIndex n = .ok i) :
+    ∃ k ∈ c.instruments, k.key = i ∧ k.exchange = ex ∧ k.nameExchange = n := by
+  rw [findInstrumentIndex_ok_iff, genMap_instrumentNames hm] at h
+  exact reverse_hit_sound _ _ _ _ ex n i h
+
+/-- Asset twin of `instrument_name_sound_nohyp`. -/
+theorem asset_name_sound_nohyp (hm : genMap c ex = .ok m) {n a : Nat}
+    (h : m.findAssetIndex n = .ok a) :
+    ∃ k ∈ c.assets, k.key = a ∧ k.exchange = ex ∧ k.nameExchange = n := by
+  rw [findAssetIndex_ok_iff, genMap_assetNames hm] at h
+  exact reverse_hit_sound _ _ _ _ ex n a h
+
+/-- (3) unknown instrument names are rejected for EVERY collection — no hypothesis besides "the map
+was generated for `ex`": a name no instrument of `ex` carries (e.g. a name of another exchange only)
+does not translate. Strengthens `instrument_unknown_name_rejected` (which assumed `WF`).
+Review C04-M2. -/
+theorem instrument_unknown_name_rejected_nohyp (hm : genMap c ex = .ok m) {n : Nat}
+    (hu : ∀ k ∈ c.instruments, k.exchange = ex → k.nameExchange ≠ n) :
+    m.findInstrumentIndex n = .error .instrumentIndex := by
+  unfold EMap.findInstrumentIndex
+  rw [genMap_instrumentNames hm, reverse_miss _ _ _ _ ex n hu]
+
+/-- (3) unknown asset names are rejected for EVERY collection (no hypothesis). Review C04-M2. -/
+theorem asset_unknown_name_rejected_nohyp (hm : genMap c ex = .ok m) {n : Nat}
+    (hu : ∀ k ∈ c.assets, k.exchange = ex → k.nameExchange ≠ n) :
+    m.findAssetIndex n = .error .assetIndex := by
+  unfold EMap.findAssetIndex
+  rw [genMap_assetNames hm, reverse_miss _ _ _ _ ex n hu]
+
+/-- What the code does when names are NOT injective, exactly, under `Indexed` alone: an instrument
+name translates to index `i` iff `i` is the LAST position holding an instrument of `ex` with this
+name (`FnvHashMap` insertion in index order, map.rs:43-50: the later index wins). With `WF` the last
+such position is the only one, which is `instrument_name_index_name` / `instrument_index_name_index`;
+without it every earlier equally named instrument is unreachable from the name. The review asked for
+this general "last index wins" statement (C04-M1, last sentence). -/
+theorem instrument_name_last_index_wins (hI : Indexed c) (hm : genMap c ex = .ok m) (n i : Nat) :
+    m.findInstrumentIndex n = .ok i ↔
+      (∃ k, c.instruments[i]? = some k ∧ k.exchange = ex ∧ k.nameExchange = n) ∧
+      ∀ j k', c.instruments[j]? = some k' → k'.exchange = ex → k'.nameExchange = n → j ≤ i := by
+  rw [findInstrumentIndex_ok_iff, genMap_instrumentNames hm]
+  exact reverse_last_wins KInstrument.key KInstrument.exchange KInstrument.nameExchange hI.2.2 ex n i
+
+/-- Asset twin of `instrument_name_last_index_wins`. -/
+theorem asset_name_last_index_wins (hI : Indexed c) (hm : genMap c ex = .ok m) (n a : Nat) :
+    m.findAssetIndex n = .ok a ↔
+      (∃ k, c.assets[a]? = some k ∧ k.exchange = ex ∧ k.nameExchange = n) ∧
+      ∀ j k', c.assets[j]? = some k' → k'.exchange = ex → k'.nameExchange = n → j ≤ a := by
+  rw [findAssetIndex_ok_iff, genMap_assetNames hm]
+  exact reverse_last_wins KAsset.key KAsset.exchange KAsset.nameExchange hI.2.1 ex n a
+
+/-- `trade_applied` under `Indexed` alone: an indexed trade is attributed to an instrument of `ex`
+carrying the trade's exchange name (payload untouched), and that instrument's index translates back
+to the trade's name. No injectivity needed. Review C04-M2. -/
+theorem trade_applied_indexed (hI : Indexed c) (hm : genMap c ex = .ok m) {t t' : Trade Nat}
+    (h : trade m t = .ok t') :
+    t'.payload = t.payload ∧
+    (∃ k, c.instruments[t'.instrument]? = some k ∧ k.exchange = ex ∧
+      k.nameExchange = t.instrument) ∧
+    m.findInstrumentName t'.instrument = .ok t.instrument := by
+  unfold trade at h
+  split at h
+  · cases h
+  · rename_i i hi
+    injection h with h; subst h
+    exact ⟨rfl, instrument_name_index_name_indexed hI hm hi⟩
+
+/-- `balance_applied` under `Indexed` alone: an indexed balance is attributed to an asset of `ex`
+carrying the balance's exchange asset name. Review C04-M2. -/
+theorem balance_applied_indexed (hI : Indexed c) (hm : genMap c ex = .ok m) {b b' : Bal Nat}
+    (h : assetBalance m b = .ok b') :
+    b'.payload = b.payload ∧
+    (∃ k, c.assets[b'.asset]? = some k ∧ k.exchange = ex ∧ k.nameExchange = b.asset) ∧
+    m.findAssetName b'.asset = .ok b.asset := by
+  unfold assetBalance at h
+  split at h
+  · cases h
+  · rename_i a ha
+    injection h with h; subst h
+    exact ⟨rfl, asset_name_index_name_indexed hI hm ha⟩
+
+/-- `order_key_applied` under `Indexed` alone (the exchange part needs no distinct ids for the
+soundness direction either): an indexed order key names the link's own exchange, the exchange index
+of `ex`, and an instrument of `ex` carrying the key's exchange name. Review C04-M2. -/
+theorem order_key_applied_indexed (hI : Indexed c) (hm : genMap c ex = .ok m) {k k' : OKey Nat Nat}
+    (h : orderKey m k = .ok k') :
+    k.exchange = ex ∧ (∃ kx, c.exchanges[k'.exchange]? = some kx ∧ kx.id = ex) ∧
+    (∃ ki, c.instruments[k'.instrument]? = some ki ∧ ki.exchange = ex ∧
+      ki.nameExchange = k.instrument) ∧ k'.cid = k.cid := by
+  unfold orderKey at h
+  split at h
+  · cases h
+  · rename_i x hx
+    split at h
+    · cases h
+    · rename_i i hi
+      injection h with h; subst h
+      have := exchange_index_sound_indexed hI hm hx
+      exact ⟨this.1, this.2, (instrument_name_index_name_indexed hI hm hi).1, rfl⟩
+
+/-- Readable whole-event corollary (the review's `C04_c.lean`, here under `Indexed` alone instead of
+`WF`): an order-snapshot account event whose state is
+`OpenFailed(Rejected(BalanceInsufficient(asset name)))` — the most deeply nested keys an account
+event carries — is accepted only if both exchange ids are `ex`, and then the indexed event is the
+same event with: the exchange index of `ex` (twice), the index of an instrument of `ex` carrying the
+order key's instrument name, the index of an asset of `ex` carrying the asset name; client order
+id and payload untouched. (The generic statement for all event shapes is
+`account_event_refines_spec`.) Review C04 LOW. -/
+theorem order_snapshot_event_applied (hI : Indexed c) (hm : genMap c ex = .ok m)
+    {x p a : Nat} {k : OKey Nat Nat} {ev' : AccEvent Nat Nat Nat}
+    (h : accountEvent m ⟨x, .orderSnapshot ⟨k, p, .openFailed (.rejected (.balanceInsufficient a))⟩⟩
+      = .ok ev') :
+    x = ex ∧ k.exchange = ex ∧
+    ∃ xi i a',
+      ev' = ⟨xi, .orderSnapshot ⟨⟨xi, i, k.cid⟩, p, .openFailed (.rejected (.balanceInsufficient a'))⟩⟩ ∧
+      (∃ kx, c.exchanges[xi]? = some kx ∧ kx.id = ex) ∧
+      (∃ ki, c.instruments[i]? = some ki ∧ ki.exchange = ex ∧ ki.nameExchange = k.instrument) ∧
+      (∃ ka, c.assets[a']? = some ka ∧ ka.exchange = ex ∧ ka.nameExchange = a) := by
+  simp only [accountEvent, orderSnapshot, orderKey, apiError] at h
+  cases h1 : m.findExchangeIndex x with
+  | error e => rw [h1] at h; cases h
+  | ok xi =>
+    cases h2 : m.findExchangeIndex k.exchange with
+    | error e => simp [h1, h2] at h
+    | ok xi2 =>
+      cases h3 : m.findInstrumentIndex k.instrument with
+      | error e => simp [h1, h2, h3] at h
+      | ok i =>
+        cases h4 : m.findAssetIndex a with
+        | error e => simp [h1, h2, h3, h4] at h
+        | ok a' =>
+          simp [h1, h2, h3, h4] at h
+          have e1 := exchange_index_sound_indexed hI hm h1
+          have e2 := exchange_index_sound_indexed hI hm h2
+          have hxi : xi2 = xi := by
+            unfold EMap.findExchangeIndex at h1 h2
+            split at h1 <;> split at h2 <;> simp_all
+          subst hxi
+          exact ⟨e1.1, e2.1, xi2, i, a', h.symm, e1.2,
+            (instrument_name_index_name_indexed hI hm h3).1,
+            (asset_name_index_name_indexed hI hm h4).1⟩
+
+/-- The names the manager hands to `client.account_snapshot` / `client.account_stream`
+(`exchange_assets` / `exchange_instruments`, map.rs:52-58, used at manager.rs:102-107) are exactly
+the `name_exchange`s of the instruments / assets of `ex`, in index order — under `Indexed` alone.
+These two functions had no theorem. Review C04 LOW (`C04_d.lean`). -/
+theorem exchange_names_handed_to_client (hI : Indexed c) (hm : genMap c ex = .ok m) :
+    m.exchangeInstruments = (c.instruments.filter fun k => k.exchange == ex).map (·.nameExchange) ∧
+    m.exchangeAssets = (c.assets.filter fun k => k.exchange == ex).map (·.nameExchange) := by
+  obtain ⟨ke, hke, rfl⟩ := genMap_ok hm
+  constructor
+  · show List.map (·.2) (collect _) = _
+    rw [collect_of_nodup _ (tbl_keys_nodup KInstrument.key KInstrument.exchange
+        KInstrument.nameExchange hI.2.2 ex), tbl_eq, List.map_map]; rfl
+  · show List.map (·.2) (collect _) = _
+    rw [collect_of_nodup _ (tbl_keys_nodup KAsset.key KAsset.exchange KAsset.nameExchange
+        hI.2.1 ex), tbl_eq, List.map_map]; rfl
+
+/-! ### The excluded point, made visible -/
+
+/-- one exchange (id 10), two instruments (indices 0 and 1) of that exchange with the same
+`name_exchange` 7: what `IndexedInstrumentsBuilder::build` produces for two definitions of one
+market that differ in any other field (`name_internal`, `kind`, `spec`, …). -/
+def collidingColl : Coll := ⟨[⟨0, 10⟩], [], [⟨0, 10, 7⟩, ⟨1, 10, 7⟩]⟩
+
+/-- **Witness of the documented excluded point** (review C04-M1). Per-exchange injectivity of
+`name_exchange` is a PRECONDITION of the round-trip clauses (`WF`, `props/C04.py` ASSUMPTIONS), not
+something the code establishes: `IndexedInstrumentsBuilder::build` dedups by whole-struct equality
+only (barter-instrument/src/index/builder.rs:66-67), so two instruments of one exchange sharing a
+`name_exchange` survive. For such a collection (`collidingColl`: `WFX` holds, `WF … 10` does not):
+the request for instrument 0 is delivered to the right client under name 7 (outbound is fine,
+`request_addressed_wfx`), but the client's answer echoing that key is attributed to instrument **1**
+(`routeResponse`), both indices translate to the name 7, the name 7 translates to index 1 only, a
+trade (fill) named 7 is booked on index 1, and NO name translates to index 0: fills of instrument 0
+are booked on instrument 1. Model and code agree here (the correspondence runs it); the
+specification is silent. -/
+theorem name_collision_misroutes_witness :
+    WFX collidingColl ∧ ¬ WF collidingColl 10 ∧
+    ∃ t m, buildExecution collidingColl [10] = .ok (some t) ∧ genMap collidingColl 10 = .ok m ∧
+      route t ⟨⟨0, 0, 5⟩, 9⟩ = .delivered 10 ⟨⟨10, 7, 5⟩, 9⟩ ∧
+      routeResponse t ⟨⟨0, 0, 5⟩, 9⟩ = some ⟨0, 1, 5⟩ ∧
+      m.findInstrumentName 0 = .ok 7 ∧ m.findInstrumentName 1 = .ok 7 ∧
+      m.findInstrumentIndex 7 = .ok 1 ∧
+      trade m ⟨7, 3⟩ = .ok ⟨1, 3⟩ ∧
+      (∀ n i, m.findInstrumentIndex n = .ok i → i ≠ 0) :=
+  ⟨by decide, by decide, _, _, rfl, rfl, by decide, by decide, rfl, rfl, rfl, rfl, by
+    intro n i h
+    have h' : List.lookup n [(7, 1)] = some i := (findInstrumentIndex_ok_iff _ n i).mp h
+    simp only [List.lookup] at h'
+    clear h
+    split at h'
+    · injection h' with h'; omega
+    · cases h'⟩
+
+/-- the same at asset level: two assets of exchange 10 named 1 -/
+def collidingAssets : Coll := ⟨[⟨0, 10⟩], [⟨0, 10, 1⟩, ⟨1, 10, 1⟩], []⟩
+
+/-- Asset twin of the excluded point: with two assets of one exchange sharing a `name_exchange`
+(`assets.dedup()`, builder.rs:68-69, is whole-struct too) asset index 0 translates to name 1, name 1
+translates to index 1, and a balance for asset name 1 is booked on asset index 1. Review C04-M1. -/
+theorem asset_name_collision_witness :
+    WFX collidingAssets ∧ ¬ WF collidingAssets 10 ∧
+    ∃ m, genMap collidingAssets 10 = .ok m ∧
+      m.findAssetName 0 = .ok 1 ∧ m.findAssetIndex 1 = .ok 1 ∧
+      assetBalance m ⟨1, 3⟩ = .ok ⟨1, 3⟩ :=
+  ⟨by decide, by decide, _, rfl, rfl, rfl, rfl⟩
+
+/-- the minimal hypotheses are satisfied by the colliding collection, on which `WF` fails: the
+`_indexed` / `_wfx` theorems above do say something there -/
+example : Indexed collidingColl ∧ WFX collidingColl ∧ ¬ WF collidingColl 10 := by decide
+/-- `instrument_name_last_index_wins` at the colliding collection: name 7 ↦ index 1, the last one -/
+example : ∃ m, genMap collidingColl 10 = .ok m ∧ m.findInstrumentIndex 7 = .ok 1 ∧
+    m.exchangeInstruments = [7, 7] := ⟨_, rfl, rfl, rfl⟩
+/-- `order_snapshot_event_applied`: its hypothesis is satisfiable (exchange 10 of `exampleColl`,
+instrument name 7 = index 1, asset name 2 = index 2) -/
+example : ∃ m, genMap exampleColl 10 = .ok m ∧
+    (accountEvent m ⟨10, .orderSnapshot ⟨⟨10, 7, 5⟩, 9,
+        .openFailed (.rejected (.balanceInsufficient 2))⟩⟩).toOption.map (·.exchange) = some 0 :=
+  ⟨_, rfl, rfl⟩
 
 end BarterModel.Props.C04
